@@ -8,6 +8,7 @@ CONSTANTS
   RootOps = TRUE
   MaxTreeDepth = 4
   MaxNodes = 99
+  FlagSets = "all"
   Points <- MPoints
   BadPoints <- MBad
   MaxMounts = 3
